@@ -807,11 +807,15 @@ class DateParserPlugin(plugins.Plugin):
             ts = timespan(start, end).disambiguated(self.basedate)
             start, end = ts.start, ts.end
         elif start:
-            start = start.disambiguated(self.basedate)
+            # The date parser can also return a plain (already unambiguous)
+            # datetime, e.g. for a relative expression
+            if not isinstance(start, datetime):
+                start = start.disambiguated(self.basedate)
             if isinstance(start, timespan):
                 start = start.start
         elif end:
-            end = end.disambiguated(self.basedate)
+            if not isinstance(end, datetime):
+                end = end.disambiguated(self.basedate)
             if isinstance(end, timespan):
                 end = end.end
         drn = DateRangeNode(node.fieldname, start, end, boost=node.boost)
